@@ -23,6 +23,10 @@ CHECKS = {
             "TLC-checked multiplicity laws on the definitions (Expand / Scale / AllOnes) + the same three metamorphic pairs executed on the code for every TLC state",
             "laws LawExpand, LawExpandUnit, LawScale, LawAllOnes, LawUnitWeights hold on every enumerated dataset; for each state the code is run weighted, expanded with unit weights, expanded without weights, with real scalings (0.5, pi, 3) and with weights omitted, for the six weighted base metrics, MetricFrame cells/aggregates per group and four named fairness metrics; results compared with each other and with the spec's exact value",
             "integer weights 1..3 in the enumeration; real-valued scalings only as multiples of those", "5/C11"),
+    "C01": (["FrameCells.tla"],
+            "TLC exhaustive enumeration of feature-tuple multisets per layout (FrameCells.tla: cells as row sets, index = product of observed values) + replay with a row-set fingerprint metric",
+            "the specification defines each by_group / overall entry by the set of row positions it must be evaluated on; TLC checks partition / index-size laws and emits every state for 8 layouts (1..3 sensitive x 0..2 control features); the replay makes the code report, per cell, exactly which rows and which sliced sample-parameter rows its metric saw (y_true_i = 2^i fingerprints), compares index, names, NaN for empty combinations, and three real metrics against the metric called directly on the specified row set",
+            "fingerprints exact for <= 26 rows; metric callables are scalar valued as the property states", "5/C01"),
 }
 
 PENDING_REASON = "check under construction in this session (DESIGN.md section 5 describes the planned TLA+ spec and binding); not yet claimed"
